@@ -274,7 +274,7 @@ func (w *c39World) run(deadline time.Time) {
 						c.reps[i] = w.intern(cp, nm)
 						if dl != nil {
 							if dm == nil {
-								dm = w.spec.bottom()
+								dm = nm // redundant delta of an update without effect: at most what its sender knows
 							}
 							c.msgs = append(c.msgs, c39Msg{origin: i, did: w.intern(dl, dm), cnt: make([]uint8, w.reps)})
 						}
